@@ -74,9 +74,9 @@ PROPS = {
             "not_covered": ["not covered: byte-level UTF-8 decoding of names (to_string_lossy / to_str are assumed total functions), symlink loops, the order of the listing, notify itself (C16)"]},
     "C16": {"units": ["WCH"], "level": "proof", "assume": ["A-std", "A-chan", "A-notify", "A-str", "A-all"],
             "not_covered": ["not covered: notify itself, recursion into directories created later; the byte-level UTF-8 decoding behind to_string_lossy (assumed total)"]},
-    "C18": {"units": ["INC"], "level": "proof", "assume": INCA,
-            "not_covered": ["not covered: injectivity of the state-file name formatting (string reasoning); canonicalisation of project directories (A-yaml side)"]},
-    "C19": {"units": ["CFG", "DOM"], "level": "proof", "assume": CFGA + ["A-str"],
+    "C18": {"units": ["INC", "CFG"], "level": "proof", "assume": INCA + ["A-yaml"],
+            "not_covered": ["not covered: injectivity of the state-file name formatting (string reasoning); that dunce::canonicalize returns one name per directory (assumed contract of canonicalize_dir, whose text is fingerprinted)"]},
+    "C19": {"units": ["CFG", "DOM", "CLN"], "level": "proof", "assume": CFGA + ["A-str"],
             "not_covered": ["not covered: list_all_available_target_names (iterator chains over string maps); str::split itself (assumed with its three defining facts: at least one piece, joining gives the text back, no piece contains the separator)"]},
     "C20": {"units": ["ACT", "RELAY"], "level": "proof", "assume": ACTORS,
             "not_covered": ["not covered: the metamorphic comparison of two real invocations"]},
